@@ -1,5 +1,6 @@
 """Item extraction from Rust source: mechanical slicing, no hand copy."""
 import hashlib
+import os
 import re
 from lexer import lex, match_close, strip_comments, LexError
 
@@ -153,10 +154,18 @@ def parse_items(src, toks, i, end):
 
 class SourceFile:
     def __init__(self, path):
+        # a path of the form `erased:<file>` (inside the repo: .../erased:src/async_vfs/x.rs) is read through rule R30 (tool/erase.py)
+        self.erased = None
+        d, b = os.path.split(path)
+        if 'erased:' in path:
+            path = path.replace('erased:', '', 1)
         self.path = path
         raw = open(path, encoding='utf-8').read()
         self.raw = raw
         self.src = strip_comments(raw)
+        if path != os.path.join(d, b):
+            from erase import erase
+            self.src, self.erased = erase(self.src)
         try:
             self.toks = lex(self.src)
             self.items = parse_items(self.src, self.toks, 0, len(self.toks))
